@@ -9,6 +9,7 @@ import (
 	sdk "github.com/cosmos/cosmos-sdk/types"
 	"pgregory.net/rapid"
 
+	"github.com/MinterTeam/mhub2/module/x/mhub2"
 	mtypes "github.com/MinterTeam/mhub2/module/x/mhub2/types"
 
 	"verifharness/bridge"
@@ -33,6 +34,11 @@ type AmtCase struct {
 	HolderVal  [2]string `json:"holder_val"`
 	HolderForm int       `json:"holder_form"` // 0 as used in lookups, 1 upper-case hex, 2 with 0x prefix
 	Recipient  int       `json:"recipient"`
+	// OldRate / OldDstDec: the token list the chain starts with gives the destination token this commission rate and
+	// these decimals; after some use, a governance proposal (TokenInfosChangeProposal) installs the values of Rate /
+	// DstDec, and only then the measured request is made
+	OldRate   string `json:"old_rate,omitempty"`
+	OldDstDec uint64 `json:"old_dst_dec,omitempty"`
 }
 
 var tierBounds = []int64{1, 2, 4, 8, 16, 32}
@@ -93,6 +99,10 @@ func genAmtCase(t *rapid.T) interface{} {
 	}
 	c.DstChain = rapid.IntRange(0, 2).Draw(t, "dst")
 	c.SameAddr = rapid.SampledFrom([]int{0, 0, 0, 1, 2}).Draw(t, "sameaddr")
+	if rapid.IntRange(0, 4).Draw(t, "governed") == 0 {
+		c.OldRate = rapid.SampledFrom([]string{"0", "0.01", "0.25", "0.000000000000000001"}).Draw(t, "oldrate")
+		c.OldDstDec = decs[rapid.IntRange(0, len(decs)-1).Draw(t, "olddec")]
+	}
 	c.FeeDenom = rapid.SampledFrom([]int{0, 0, 0, 0, 0, 0, 1, 2}).Draw(t, "feedenom")
 	c.HolderWho = rapid.IntRange(0, 3).Draw(t, "holderwho")
 	for i := 0; i < 2; i++ {
@@ -192,6 +202,16 @@ func runAmtCase(ci interface{}, rec *pbt.Rec) *pbt.Failure {
 	}
 	k := tierOf(best)
 
+	cfgNew := cfg
+	cfgNew.Tokens = append([]sim.TokenCfg{}, cfg.Tokens...)
+	if c.OldRate != "" {
+		cfg.Tokens = append([]sim.TokenCfg{}, cfg.Tokens...)
+		for i := range cfg.Tokens {
+			if cfg.Tokens[i].Denom == "hub" && cfg.Tokens[i].Chain == dst {
+				cfg.Tokens[i].Commission, cfg.Tokens[i].Decimals = c.OldRate, c.OldDstDec
+			}
+		}
+	}
 	h := sim.NewHub(cfg)
 	if bal := bi(c.Balance); bal.Sign() > 0 {
 		if bal.BitLen() > 256 { // more than an sdk.Int can hold ("exactly enough" for two 2^255-scale values): the largest balance there is
@@ -201,6 +221,29 @@ func runAmtCase(ci interface{}, rec *pbt.Rec) *pbt.Failure {
 	}
 	if err := h.Begin(1, 1600000005); err != nil {
 		return pbt.Failf("harness", "begin: %v", err)
+	}
+	if c.OldRate != "" {
+		// use the old list a little (lookups by denom and by external id, a small withdrawal), then change it by governance
+		warm := sdk.AccAddress([]byte("verif-warmup-acct-01"))
+		h.Fund(warm, "hub", pow10(30))
+		if r := h.Deliver(mtypes.NewMsgSendToExternal(mtypes.ChainID(dst), warm, sim.ExtUser(3).Hex(), sdk.NewCoin("hub", sdk.NewIntFromBigInt(pow10(24))), sdk.NewCoin("hub", sdk.NewInt(0)))); r.Err == nil {
+			// and take it back, so that the measured request finds the pool as empty as without this prelude
+			if resp, ok := r.Resp.(*mtypes.MsgSendToExternalResponse); ok {
+				h.Deliver(&mtypes.MsgCancelSendToExternal{Id: resp.Id, Sender: warm.String(), ChainId: dst})
+			}
+		}
+		for _, ch := range []string{src, dst} {
+			h.K.DenomToExternalId(sdk.WrapSDKContext(h.Ctx()), &mtypes.DenomToExternalIdRequest{Denom: "hub", ChainId: ch})
+			h.K.ExternalIdToDenom(sdk.WrapSDKContext(h.Ctx()), &mtypes.ExternalIdToDenomRequest{ExternalId: ids[ch], ChainId: ch})
+		}
+		infos := &mtypes.TokenInfos{}
+		for _, tk := range cfgNew.Tokens {
+			infos.TokenInfos = append(infos.TokenInfos, &mtypes.TokenInfo{Id: tk.Id, Denom: tk.Denom, ChainId: tk.Chain, ExternalTokenId: tk.ExtId, ExternalDecimals: tk.Decimals, Commission: sdk.MustNewDecFromStr(tk.Commission)})
+		}
+		if err := mhub2.NewProposalsHandler(h.K)(h.Ctx(), &mtypes.TokenInfosChangeProposal{NewInfos: infos}); err != nil {
+			return pbt.Failf("harness", "token infos change: %v", err)
+		}
+		rec.Label("token-list-changed-by-governance")
 	}
 	// sdk.Int holds at most 256 bits; anything larger stands for the largest value a message can carry
 	clamp := func(x *big.Int) *big.Int {
